@@ -2190,6 +2190,16 @@ impl Prop for P {
                 for (f, la) in &faults {
                     let c = Case { src: Src::Mut { content, len, seed, faults: f.clone() }, len: *la, aux: 0 };
                     out.push(serde_json::json!({"cell": cell, "c": serde_json::to_value(&c).expect("case serialises")}));
+                    // the deserialisers of structured models pick the model variant (context
+                    // order, configuration preset, open mode) from `aux`: the +-1 sweep runs for
+                    // every variant, not only the first
+                    let structured = cell.contains("deser") || cell.ends_with("_load") || cell.ends_with("_open");
+                    if structured && matches!(f.as_slice(), [Fault::Nudge { .. }]) {
+                        for aux in 1..=5u8 {
+                            let c = Case { src: Src::Mut { content, len, seed, faults: f.clone() }, len: *la, aux };
+                            out.push(serde_json::json!({"cell": cell, "c": serde_json::to_value(&c).expect("case serialises")}));
+                        }
+                    }
                 }
             }
         }
